@@ -161,7 +161,7 @@ namespace {
    int do_record(int argc, char** argv)
    {
       unsigned long seed = 1;
-      int runs = 5, len = 200, np = 6, nv = 4;
+      int runs = 5, len = 200, np = 6, nv = 4, maxsubst = 0;
       for (int k = 2; k + 1 < argc; k += 2) {
          std::string f = argv[k], v = argv[k + 1];
          if (f == "--seed") seed = std::stoul(v);
@@ -169,6 +169,7 @@ namespace {
          else if (f == "--len") len = std::stoi(v);
          else if (f == "--params") np = std::stoi(v);
          else if (f == "--values") nv = std::stoi(v);
+         else if (f == "--maxsubst") maxsubst = std::stoi(v);        // few substitutions, so that each gets many bindings and rebindings
       }
       std::mt19937_64 g { seed };
       auto below = [&](int n) { return static_cast<int>(g() % static_cast<unsigned long>(n)); };
@@ -179,6 +180,11 @@ namespace {
             int ns = static_cast<int>(m.substs.size()) - 1;
             int what = below(100);
             Value ev;
+            if (maxsubst > 0) {
+               if (ns == 0) what = 0;                                  // one elementary substitution first
+               else if (ns < maxsubst) what = 10;                      // then general ones
+               else if (what < 14) what = 14 + below(31);              // then only bindings and applications
+            }
             if (ns == 0 or what < 8) ev = m.exec("make_elementary", 0, 1 + below(np), 1 + below(np + nv));
             else if (what < 14) ev = m.exec("make_general", 0, 0, 0);
             else if (what < 45) {
